@@ -408,8 +408,14 @@ namespace GeographicLib {
           calp1 = (calp1a + calp1b)/2;
           Math::norm(salp1, calp1);
           tripn = false;
-          tripb = (fabs(salp1a - salp1) + (calp1a - calp1) < tolb_ ||
-                   fabs(salp1 - salp1b) + (calp1 - calp1b) < tolb_);
+          // Scale the test by the width of the bracket in calp1; otherwise
+          // the search stops prematurely when the root is at |calp1| <
+          // tolb_ (nearly equatorial, nearly antipodal points on eccentric
+          // ellipsoids).
+          real tb = tolb_ * fmin(real(1),
+                                 fmax(fabs(calp1a - calp1b), tiny_));
+          tripb = (fabs(salp1a - salp1) + (calp1a - calp1) < tb ||
+                   fabs(salp1 - salp1b) + (calp1 - calp1b) < tb);
         }
         {
           real dummy;
